@@ -89,7 +89,11 @@ Theorem e2e_sample_pcm wo ch total w chunks f :
   exists blocks,
     CS.dec_stream (f_stream f) = Some (conv_si (f_si f), map CS.interleave_frame blocks, CS.EndEof) /\
     concat (map CS.interleave_frame blocks) =
-      firstn (N.to_nat ch * (length (concat chunks) / N.to_nat ch)) (concat chunks).
+      firstn (N.to_nat ch * (length (concat chunks) / N.to_nat ch)) (concat chunks) /\
+    (* the blocks themselves, for the readers area *)
+    Forall (EP.block_ok (conv_si (f_si f)) bps) blocks /\ EP.short_only_last (conv_si (f_si f)) blocks /\
+    FlacCodec.Ast.si_total (conv_si (f_si f)) = EP.blocks_samples blocks /\
+    FlacCodec.Ast.si_channels (conv_si (f_si f)) = ch /\ EP.blocks_samples blocks < 2 ^ 36.
 Proof.
   intros Hwf Hnew Hrun Hfits Hlen36.
   pose proof (sample_new_wf p [] wo rate bps ch total w Hwf Hnew) as Hsw.
@@ -174,26 +178,25 @@ Proof.
   assert (Hf12 : Forall2 (fun c b => fill_from_samples ch c = Ok b) (cs ++ wholes) (bl1 ++ lastbl)) by (apply Forall2_app; assumption).
   destruct (chunks_blocks_ok si ch bs Hc1 Hc8 Hb1 Hb32 ltac:(lia) Ssb Ssc Ssm _ _ Hf12 ltac:(apply Forall_app; split; assumption))
     as (Hok & Hcat & Hsum & Hcount & Hlens).
-  exists (bl1 ++ lastbl). split.
-  - (* the composition theorem *)
-    assert (Hsub : (length (concat (cs ++ wholes)) <= length all)%nat).
-    { rewrite concat_app, app_length, Hwc, firstn_length, Eall, app_length. lia. }
-    eapply (e2e_encoder o L md5 md5_length p rate bps wo ch t e0 (bl1 ++ lastbl) e2 f He0 Hr Hfin); fold si.
-    + exact Hok.
-    + apply short_only_last_app; [|exact Llast].
-      (* the full blocks have block_size >= 16 samples *)
-      destruct (chunks_blocks_ok si ch bs Hc1 Hc8 Hb1 Hb32 ltac:(lia) Ssb Ssc Ssm _ _ Hf1 Hcs) as (_ & _ & _ & _ & Hl1).
-      clear - Hl1 Fcs Hkk Hbs16 Hc1. induction Hl1 as [|c b cl bl Hcb _ IH]; constructor.
-      * apply Forall_cons_iff in Fcs. destruct Fcs as [Lc _]. rewrite Lc, Hkk in Hcb.
-        assert (N.to_nat (FlacCodec.Enc.block_len b) = N.to_nat bs) by nia. lia.
-      * apply IH. apply Forall_cons_iff in Fcs. tauto.
-    + (* at most one block per sample *)
-      assert (Hcnt : (length (bl1 ++ lastbl) <= length (concat (cs ++ wholes)))%nat).
-      { rewrite Hcount. clear - Hcs Hwh Hc1. assert (F : Forall (chunk_cond ch bs) (cs ++ wholes)) by (apply Forall_app; split; assumption).
-        induction F as [|c l (n & Hn & _ & Hl & _) _ IH]; cbn [concat length]; [lia|]. rewrite app_length. nia. }
-      unfold FlacCodec.Header.MAX_FRAME_NUMBER. change (2 ^ 36 - 1 + 1) with (2 ^ 36). lia.
-    + assert (2 ^ 36 < 2 ^ 64) by (apply N.pow_lt_mono_r; lia). lia.
-  - rewrite Hcat, concat_app, Hwc.
+  assert (Hsub : (length (concat (cs ++ wholes)) <= length all)%nat).
+  { rewrite concat_app, app_length, Hwc, firstn_length, Eall, app_length. lia. }
+  assert (Hshape : EP.short_only_last si (bl1 ++ lastbl)).
+  { apply short_only_last_app; [|exact Llast].
+    destruct (chunks_blocks_ok si ch bs Hc1 Hc8 Hb1 Hb32 ltac:(lia) Ssb Ssc Ssm _ _ Hf1 Hcs) as (_ & _ & _ & _ & Hl1).
+    clear - Hl1 Fcs Hkk Hbs16 Hc1. induction Hl1 as [|c b cl bl Hcb _ IH]; constructor.
+    * apply Forall_cons_iff in Fcs. destruct Fcs as [Lc _]. rewrite Lc, Hkk in Hcb.
+      assert (N.to_nat (FlacCodec.Enc.block_len b) = N.to_nat bs) by nia. lia.
+    * apply IH. apply Forall_cons_iff in Fcs. tauto. }
+  assert (Hcnt : (length (bl1 ++ lastbl) <= length (concat (cs ++ wholes)))%nat).
+  { rewrite Hcount. clear - Hcs Hwh Hc1. assert (F : Forall (chunk_cond ch bs) (cs ++ wholes)) by (apply Forall_app; split; assumption).
+    induction F as [|c l (n & Hn & _ & Hl & _) _ IH]; cbn [concat length]; [lia|]. rewrite app_length. nia. }
+  assert (H3664 : 2 ^ 36 < 2 ^ 64) by (apply N.pow_lt_mono_r; lia).
+  destruct (e2e_encoder o L md5 md5_length p rate bps wo ch t e0 (bl1 ++ lastbl) e2 f He0 Hr Hfin Hok Hshape) as [Hdec Htot].
+  { unfold FlacCodec.Header.MAX_FRAME_NUMBER. change (2 ^ 36 - 1 + 1) with (2 ^ 36). lia. }
+  { lia. }
+  fold si in Hdec, Htot.
+  exists (bl1 ++ lastbl). split; [exact Hdec|]. split; [|split; [exact Hok|split; [exact Hshape|split; [exact Htot|split; [exact Ssc|lia]]]]].
+  rewrite Hcat, concat_app, Hwc.
     (* concat cs ++ the whole PCM frames of the rest = the whole PCM frames of everything *)
     assert (Lcs : length (concat cs) = (k * length cs)%nat).
     { clear - Fcs. induction Fcs as [|c l Hc _ IH]; cbn [concat length]; [lia|]. rewrite app_length, IH, Hc. lia. }
